@@ -21,6 +21,9 @@ CLAIMED = {
  "C10": dict(technique="effect summaries (access paths, aliases, index shapes, callee summaries through returned references) of every run_blocks callable per grid type; must-precede rule for the sequential donors rebuild; sibling write-set agreement",
              text="Decides race freedom of the parallel regions by an effect discipline (shared objects written only at block-derived indices) for all 7 grid instantiations and all paths, plus the ordering of the donors rebuild. Numeric equality beyond race freedom and identical per-index logic is not decided; user kernel callbacks are assumed index-partitioned.",
              ref="§5 C10"),
+ "C16": dict(technique="effect summaries of all operator implementations and query functions + must-write (all-paths) analysis of the snapshot copy routine; guard-dominance analysis of flow_graph mutators",
+             text="Decides copy completeness of graph snapshots (every member operators write and snapshot queries read is copied on every path, with column-shape reasoning) and that every mutating public method is dominated by the read-only guard, for all 7 grid instantiations. Equality with a prefix-only graph on all inputs is not decided as such.",
+             ref="§5 C16"),
 }
 NA = {}
 DEFAULT_NA = "check not implemented yet (framework under construction)"
